@@ -1168,6 +1168,24 @@ impl Gen {
 
   fn profile_buf(&mut self) {
     let sizes = [0u64, 1, 2, 3, 4, 7, 8, 9, 15, 16, 17, 19, 24, 31, 32, 33, 40, 64];
+    // buffers of an arena whose memory was moved by a `truncate` first (nothing is live yet; the sync flavour answers
+    // `r=na`): the base address must still honour the configured maximum alignment for `align_to` / `put_aligned`
+    let over = self.cfg.as_ref().map(|c| c.maxalign > 16 && c.backend == 0).unwrap_or(false);
+    if self.rng.chance(if over { 60 } else { 12 }) && self.cfg.as_ref().map(|c| c.backend != 2).unwrap_or(false) {
+      let cap = self.ai().capacity as u64;
+      let n = self.rng.pick(&[cap, cap + 8, 2 * cap, cap + 4096, cap.saturating_sub(8)]);
+      self.emit(format!("truncate {n}"));
+      if over {
+        // and a buffer that asks for the over-aligned pointer right away
+        let h = self.fresh_h();
+        if self.emit(format!("alloc_bytes {h} 200")).starts_with("r=ok") {
+          let a = self.rng.pick(&[32u64, 64]);
+          self.emit(format!("align_to {h} {a} {a}"));
+          let b = self.rng.below(256);
+          self.emit(format!("put_aligned {h} {a} {a} {b}"));
+        }
+      }
+    }
     if self.rng.chance(55) {
       // test buffers from recycled space: fill the arena, dirty it, free a middle block
       let ai = self.ai();
@@ -1327,7 +1345,10 @@ impl Gen {
         0 => self.gen_rd(),
         1 => drop(self.emit("slices".to_string())),
         2 => drop(self.emit("info".to_string())),
-        _ => drop(self.emit("checksum crc32".to_string())),
+        _ => {
+          let k = self.rng.pick(&["crc32", "ordsum"]);
+          self.emit(format!("checksum {k}"));
+        }
       }
     }
     // every mutator must be refused: most of them are tried in every read-only session, in random order
@@ -1399,8 +1420,17 @@ impl Gen {
     if remove {
       self.emit("remove_on_drop 1".to_string());
     }
+    // the mark set and taken back again: the file stays
+    let revoked = !remove && self.rng.chance(8);
+    if revoked {
+      self.emit("remove_on_drop 1".to_string());
+      if self.rng.chance(50) {
+        self.emit("info".to_string());
+      }
+      self.emit("remove_on_drop 0".to_string());
+    }
     self.close_all();
-    if remove || self.rng.chance(50) {
+    if remove || revoked || self.rng.chance(50) {
       self.emit("filehash".to_string());
     }
     if locked {
